@@ -2098,14 +2098,15 @@ func (stmt *UpdateStmt) execAt(ctx context.Context, tx *SQLTx, params map[string
 		return nil, err
 	}
 
-	for {
-		row, err := rowReader.Read(ctx)
-		if errors.Is(err, ErrNoMoreRows) {
-			break
-		} else if err != nil {
-			return nil, err
-		}
+	// the rows to update are collected before the first one is written: the writes add
+	// and hide entries of the index the scan may be iterating, which made the scan skip
+	// rows, visit them again or fail (the statement works on the rows as of its start)
+	rows, err := ReadAllRows(ctx, rowReader)
+	if err != nil {
+		return nil, err
+	}
 
+	for _, row := range rows {
 		valuesByColID := make(map[uint32]TypedValue, len(row.ValuesBySelector))
 
 		for _, col := range table.cols {
@@ -2242,15 +2243,13 @@ func (stmt *DeleteFromStmt) execAt(ctx context.Context, tx *SQLTx, params map[st
 
 	table := rowReader.ScanSpecs().Index.table
 
-	for {
-		row, err := rowReader.Read(ctx)
-		if errors.Is(err, ErrNoMoreRows) {
-			break
-		}
-		if err != nil {
-			return nil, err
-		}
+	// as in UPDATE: the rows to delete are collected before index entries are hidden
+	rows, err := ReadAllRows(ctx, rowReader)
+	if err != nil {
+		return nil, err
+	}
 
+	for _, row := range rows {
 		valuesByColID := make(map[uint32]TypedValue, len(row.ValuesBySelector))
 
 		for _, col := range table.cols {
